@@ -2,8 +2,8 @@
 
 Engine E1 (tasks): histories of length <= 10 (short ones favoured) over one real
 outer Deferred and up to three inner Deferreds: callback / errback / cancel on
-the outer, "add a callback that returns a new unfired inner Deferred", fire or
-cancel an inner.  Every Deferred has a tape-chosen canceller in {none, does
+the outer, "add a callback that returns a new unfired inner Deferred" (to the outer
+or to an earlier inner one, so chains of depth 3+ form), fire or cancel an inner.  Every Deferred has a tape-chosen canceller in {none, does
 nothing, fires callback, fires errback, raises}.  Operations stay enabled after
 the Deferred has fired (that is the point: second results, late results after a
 canceller-less cancel, cancel of a fired Deferred).  Oracle: the reference state
@@ -160,14 +160,20 @@ def run(sim):
             sim.check("cancel-returns", got == "returns", "cancel", "cancel(%s) raised out of a canceller the model did not expect to raise: %s" % (name, got))
 
     def add_inner():
+        # the Deferred that gets the new callback: usually the outer one, sometimes an earlier inner one, so that waiting
+        # chains of depth 3 and more (outer -> inner1 -> inner2, with the middle one fired or not) occur
+        parents = ["outer"] + ["inner%d" % i for i in range(1, st["inners"] + 1)]
+        parent = "outer" if len(parents) == 1 or not sim.draw_bool(0.35, "nested") else sim.draw_choice(parents[1:], "parent")
         st["inners"] += 1
         iname = "inner%d" % st["inners"]
         kind = new_deferred(iname)
-        history.append("add-inner(%s)" % kind)
-        sim.event("add-inner", iname, kind)
+        history.append("add-inner(%s%s)" % (kind, "" if parent == "outer" else "@" + parent))
+        sim.event("add-inner", iname, kind, parent)
+        if parent != "outer":
+            sim.probe("inner_chained_to_inner")
         add_both(iname, ("echo",))                 # recorder on the inner: sees the inner's one result
-        add_both("outer", ("deferred", iname))     # outer callback returning the (still unfired) inner
-        add_both("outer", ("echo",))               # recorder: what the outer continues with afterwards
+        add_both(parent, ("deferred", iname))      # callback returning the (still unfired) inner
+        add_both(parent, ("echo",))                # recorder: what the parent continues with afterwards
 
     with sim.guard("operation-raised"):
         for _ in range(nops):
